@@ -29,6 +29,7 @@ type kWorld struct {
 	version  int64
 	items    []*xItem // list data for delta checks (C02)
 	score    map[int64]int64 // data behind the cached (expensive) field Item.w
+	slowLive bool            // the live resolver is slow: other goroutines run while it executes
 	res      []*kRes
 	runs     int            // resolver executions of the live field
 	runsAfterClose int
@@ -77,6 +78,9 @@ func kSchema(w *kWorld) *Schema {
 			w.runsAfterClose++
 		}
 		register(ctx)
+		if w.slowLive {
+			nondet.Yield()
+		}
 		if w.failOnRun != 0 && w.runs == w.failOnRun {
 			if w.failKind == xFailPanic {
 				panic("secret panic")
